@@ -95,6 +95,7 @@ chapol_decrypt(br_sslrec_chapol_context *cc,
 	for (u = 0; u < 16; u ++) {
 		bad |= tag[u] ^ buf[len + u];
 	}
+	BR_VERIF_PUBLIC(&bad, sizeof bad);
 	if (bad) {
 		return NULL;
 	}
